@@ -236,9 +236,8 @@ def displayed (s : PyStr) : PyStr := s.map fun c => if isXmlChar c then c else 0
 def isPlain (c : Nat) : Bool :=
   isXmlChar c && c != 38 && c != 60 && c != 62 && c != 34 && c != 39 && !isWs c && c != 0xFFFD
 
-/-- the plain characters of a string, in order.  "The text element shows the name" is stated as: the displayed text and
-    the name have the same plain characters (how markup and unrepresentable characters are shown — escaped, replaced by a
-    blank or by U+FFFD, dropped — is left to the sanitiser; the exact choice of the code is pinned by the model). -/
+/-- the plain characters of a string, in order (a sanitiser-independent weakening of "the text shows the name", kept
+    as a corollary: `plainOf_displayed`; the specification itself demands the exact text `displayed name`) -/
 def plainOf (s : PyStr) : PyStr := s.filter isPlain
 
 end SkNet.Svg
